@@ -3,6 +3,7 @@
 From Coq Require Import ZArith List.
 From Strand Require Import Base.ZUtil Model.Outcome Model.Codec Model.Backend Model.ZBackend Model.Zkp Model.Wire
   Proofs.ZLaws Proofs.ZInst Proofs.CodecP Proofs.WireP.
+From Strand Require Import Model.Ristretto Model.RBackend Proofs.RistrettoWireP.
 Import ListNotations.
 Open Scope Z_scope.
 
@@ -48,3 +49,19 @@ Theorem C11_decoded_shuffle_proof : forall K fl P, 1 < p_p P -> forall bs w,
   Forall (fun x => 0 <= x < p_q P) (sp_s_hats w) /\ Forall (fun x => 0 <= x < p_q P) (sp_s_primes w).
 Proof. exact decoded_proof_wf. Qed.
 Print Assumptions C11_decoded_shuffle_proof.
+
+(* ristretto: a byte string decodes as an exponent iff it is the 32-byte little-endian encoding of an integer below
+   the group order; strings of any other length decode neither as exponent nor as element; non-canonical field
+   encodings (>= 2^255-19, hence any set top bit) and negative (odd) values are refused as elements before the
+   curve equation is consulted. (That the remaining 32-byte strings decode iff they are ristretto encodings is
+   RFC 9496 DECODE, executed by the model and tied to curve25519-dalek, not proved.) *)
+Theorem C11_ristretto_exponent_acceptance : forall bs v,
+  r_exp_from_bytes bs = Ok v <-> (length bs = 32%nat /\ v = le_int bs /\ v < ell).
+Proof. exact r_exp_acceptance. Qed.
+Print Assumptions C11_ristretto_exponent_acceptance.
+
+Theorem C11_ristretto_length_and_canonicity : forall K bs,
+  (length bs <> 32%nat -> r_exp_from_bytes bs = Err /\ r_element_from_bytes K bs = Err) /\
+  (length bs = 32%nat -> (le_int bs >= fp \/ Z.odd (le_int bs) = true) -> r_element_from_bytes K bs = Err).
+Proof. intros K bs. split; [exact (r_wrong_length_refused K bs)|exact (r_element_precheck K bs)]. Qed.
+Print Assumptions C11_ristretto_length_and_canonicity.
